@@ -744,25 +744,7 @@ fn tf_class(f: &TextFault) -> &'static str {
     }
 }
 
-pub fn name_class(n: &str) -> &'static str {
-    if n.contains('\t') {
-        "tab"
-    } else if n.len() == 128 {
-        "128"
-    } else if n.contains('=') {
-        "equals"
-    } else if n.contains('#') {
-        "hash"
-    } else if n.contains("[Key]") {
-        "section"
-    } else if !n.is_ascii() {
-        "unicode"
-    } else if n.contains(' ') {
-        "space"
-    } else {
-        "plain"
-    }
-}
+pub use crate::gen::name_class;
 
 pub fn gen_name(rng: &mut Rng) -> String {
     match rng.below(14) {
@@ -815,8 +797,19 @@ impl Family for A9 {
         // the mix depends on which checks call this family; the run index lays out the
         // scrypt-bound C15 kinds first so that small budgets still contain a complete sweep
         let sk = {
-            let mut b = rng.bytes(32);
-            b[0] |= 1;
+            // mostly random keys; also constant-fill and sparse ones (legal 32-byte keys like any other)
+            let mut b = match rng.below(8) {
+                0 => vec![*rng.pick(&[0x00u8, 0xff, 0x55, 0x01]); 32],
+                1 => {
+                    let mut v = vec![0u8; 32];
+                    v[rng.usize_below(32)] = 1 + rng.below(255) as u8;
+                    v
+                }
+                _ => rng.bytes(32),
+            };
+            if rng.chance(1, 2) {
+                b[0] |= 1;
+            }
             Hx(b)
         };
         let salt = Hx(rng.bytes(32));
